@@ -9,6 +9,24 @@ rnd, base = int(sys.argv[1]), sys.argv[2]
 only = [a.upper() for a in sys.argv[3:]]
 
 FLAVOUR = {
+    10: ("Produce a change that is DIFFERENT from all of those - a different function and a different trigger. Choose ONE of these styles, "
+         "whichever gives the most plausible honest regression for this property: (a) a shared helper outside the anchored functions (utils, "
+         "Point / Shape / BoundingBox / AspectRatio, netlist_types, keyword tables, small helpers of the tools); (b) an error path: the wrong thing "
+         "happens after a rejected or failed operation on the same object or in the same process; (c) another access path to the same result "
+         "(another getter, a cached list or property, __eq__ / __hash__ / __str__ / duplicate / copy, a keyword or default argument, a file "
+         "instead of a string); (d) a size or multiplicity threshold (more elements than small examples have, a repeated element, an empty "
+         "collection); (e) an exact tie or boundary at ordinary values; (f) an object with a history (modified in place, used twice, shared "
+         "between two owners, passed by the caller and changed by the callee). Avoid changes whose only effect is at absurd numeric scales "
+         "(1e-10 or 1e+10)."),
+    9: ("Produce a change that is DIFFERENT from all of those. This time put the slip into the core ALGORITHM of the anchored mechanism itself - not "
+        "into I/O, caching, aliasing, process state, tolerances or input forms (those have been done many times): a wrong index or loop bound, a "
+        "missed case in a case analysis, a wrong tie-break, a condition that is almost always equivalent to the right one, an early exit that is "
+        "almost always safe, an optimisation whose invariant fails for some structure. It should show only for STRUCTURED inputs that a random "
+        "small example is unlikely to contain: particular shapes or nestings, symmetric configurations, runs of equal items, specific "
+        "multiplicities, degenerate-but-valid geometry (corner contacts, shared boundaries, collinear edges, touching-but-not-overlapping, "
+        "a region enclosed by others, an L / U / T / plus / staircase arrangement), or a specific interplay of three or more elements. The change "
+        "must be plausible as an honest regression and must keep the 46 tests green. Avoid changes whose only effect is at absurd numeric scales "
+        "(1e-10 or 1e+10)."),
     8: ("Produce a change that is DIFFERENT from all of those - a different function and a different trigger. Assume the harness that will judge "
         "your change draws random small designs and random short operation sequences and compares the code with an independent oracle: think of "
         "what such a harness systematically misses. For example: a specific 'magic' value or length (exactly 2 elements, exactly 7, a power of two, "
